@@ -14,6 +14,7 @@ import (
 
 	"hop.computer/hop/common"
 	"hop.computer/hop/keys"
+	"hop.computer/hop/pkg/vt"
 )
 
 // UDPLike interface standardizes Reliable channels and UDPConn.
@@ -163,6 +164,9 @@ func (c *Client) clientHandshakeLocked() error {
 	c.hs.leaf, c.hs.intermediate, err = c.prepareCertificates()
 	if err != nil {
 		return err
+	}
+	if vt.On {
+		c.hs.leaf, c.hs.intermediate = verifOverrideCerts(c, c.hs.leaf, c.hs.intermediate)
 	}
 
 	c.hs.remoteAddr = c.dialAddr
